@@ -51,9 +51,10 @@ func dataDiff(got, want []tarFile, prefixOK bool) string {
 			return fmt.Sprintf("entry %d is %q (dir=%v), want %q (dir=%v)", i, g.Name, g.Dir, w.Name, w.Dir)
 		}
 		if prefixOK && i == len(got)-1 {
-			if !bytes.HasPrefix(w.Body, g.Body) {
-				return fmt.Sprintf("entry %d (%s): bytes read before the error are not a prefix of the packaged file", i, g.Name)
-			}
+			// the read of this entry ended in an error: what a decompressor handed
+			// out before it reported the error is not claimed to be meaningful
+			// (compress/bzip2 emits bytes decoded from zero bits before it notices
+			// the I/O error); only completely read entries are compared
 			continue
 		}
 		if !bytes.Equal(g.Body, w.Body) {
